@@ -224,6 +224,36 @@ def completeOKFor (k : Kind) (g : SGrammar) (b : Built) : Bool :=
   | .slr => completeSLROK g b
   | _ => completeLR1OK g b
 
+/-! ## the success chain SLR ⇒ LALR ⇒ LR(1): a per-run certificate -/
+
+/-- the cores of the kernel items of a state -/
+def kernelCores (start' : String) (I : List Item) : List Item :=
+  coreOf (I.filter fun it => it.dot > 0 || it.prod.head == start')
+
+/-- the state of the coarser construction with the same kernel cores (`-1`: none) -/
+def coarseState (start' : String) (S1 : StateMap) (I : List Item) : Int :=
+  match S1.findIdx? (fun K => sameSet (kernelCores start' K) (kernelCores start' I)) with
+  | some i => i
+  | none => -1
+
+def actionImage (f : Int → Int) : Action → Action
+  | .shift t => .shift (f t)
+  | a => a
+
+/-- `b2` (the finer construction: LALR w.r.t. SLR, LR(1) w.r.t. LALR) is simulated by `b1` along the state map `f`:
+every action of a cell of `b2` is present (shift targets mapped) in the corresponding cell of `b1` — i.e. per core the
+lookahead sets of `b2` are included in those of `b1`; and the cells of `b2` are duplicate-free with at most one shift
+each. -/
+def chainCertF (f : Int → Int) (b1 b2 : Built) : Bool :=
+  b2.table.actions.all fun e =>
+    decide e.2.Nodup && decide ((e.2.filter isShift).length ≤ 1) &&
+    e.2.all fun act => (b1.table.cell (f e.1.1) e.1.2).contains (actionImage f act)
+
+/-- the certificate with the state map "same kernel cores" (tabulated once per state of `b2`) -/
+def chainCert (b1 b2 : Built) : Bool :=
+  let tab : List Int := b2.states.map (coarseState b1.start b1.states)
+  chainCertF (fun t => if t < 0 then -1 else tab.getD t.toNat (-1)) b1 b2
+
 /-! ## derivation trees -/
 
 mutual
